@@ -50,9 +50,11 @@ Proved (nothing partial for the P1 grammar):
 * THE SIDE CONDITION IS GENUINE: `comma_value_changes_arguments` — `const K = 1 , 2` is accepted by
   `parseConstant` and stored as `1 , 2`; `setvar(K)` then has ONE argument `1 , 2`, the hand expansion
   `setvar(1 , 2)` has TWO arguments `1`, `2` (and is not `SWF` as an expansion: the comma token restructures
-  the argument list).  Likewise a value containing `)` / `:` / `format` / a string changes the structure of the
-  expanded source; `switch (var(K))` with `K = ( 1 )` reads the operand `( 1 )`, the hand-expanded
-  `switch (var(( 1 )))` stops the operand at the first `)`.
+  the argument list).  `paren_value_changes_switch` — with `const K = ( 1 )`, `switch (var(K)) {…}` switches on
+  the operand `( 1 )`, the hand expansion `switch (var(( 1 ))) {…}` is REJECTED ("missing opening curly brace
+  of switch statement": the operand ends at the first `)`).  Likewise `:` in a `case` value, `format`, string
+  tokens … change the structure of the expanded source: "use = value written out" holds for the token STRINGS
+  that reach the output, not for the source text, unless the value's words are plain (`PlainValues`).
 * `non_sites_untouched`   : `expandB` and `elabS` leave command names, label names, scope keywords, the
                             `poryswitch` operand alone; example: with `const setvar = 1`, `setvar(setvar)` is the
                             command `setvar` with argument `1`.  (Script names are not part of a body: `sn` is a
@@ -380,6 +382,36 @@ example (env : Env) (sn : String) :
       viewE (elabE env sn { consts := [] } (expandB wtComma exComma)) :=
   elab_const_expand env sn wtComma (by decide) {} exComma
 
+/-- `const K = ( 1 )` -/
+def wtParen : WTable := [("K", ["(", "1", ")"])]
+
+/-- `switch (var(K)) { case 1: a }` -/
+def exParen : List SStmt :=
+  [.switch_ (tk .SWITCH "switch") lp (tk .VAR "var") lp [tk .IDENT "K"] rp rp lb
+     [.case (tk .CASE "case") [tk .INT "1"] colon [.cmd0 (tk .IDENT "a")]] rb]
+
+def operandLit (r : Except PFail ((List Stmt × ImpData) × PState)) : Option String :=
+  match r with
+  | .ok (([.switch_ _ _ op _], _), _) => some op.lit
+  | _ => none
+def errMsg (r : Except PFail ((List Stmt × ImpData) × PState)) : Option String :=
+  match r with
+  | .error (.err e) => some e.msg
+  | _ => none
+
+set_option maxRecDepth 100000 in
+/-- **A value containing `)` changes a `switch` operand.** With `const K = ( 1 )` the statement
+`switch (var(K)) { … }` switches on the operand `( 1 )`; the hand expansion `switch (var(( 1 ))) { … }` is
+rejected: the operand ends at the first `)` and the `{` is not where the parser expects it. -/
+theorem paren_value_changes_switch :
+    WordsOK wtParen ∧ ¬ PlainValues wtParen ∧ SWF exParen ∧ ¬ SWF (expandB wtParen exParen) ∧
+    operandLit ((parseBlockStatement {} "s" lb 40 [] {}).run
+      { toks := printStmts exParen ++ [rb], eof := tk .EOF "", constants := render wtParen }) = some "( 1 )" ∧
+    errMsg ((parseBlockStatement {} "s" lb 40 [] {}).run
+      { toks := printStmts (expandB wtParen exParen) ++ [rb], eof := tk .EOF "", constants := [] }) =
+      some "missing opening curly brace of switch statement" := by
+  refine ⟨by decide, by decide, by decide, by decide, by decide, by decide⟩
+
 -- sanity checks (evaluation, not proofs): the printed tokens of the hand expansion are what the model lexer
 -- produces for the hand-expanded source text (types and literals), for the parts of the example whose sites are
 -- token lists (command arguments, switch operand, case value) …
@@ -406,5 +438,6 @@ end Example
 #print axioms parse_const_expand_plain
 #print axioms non_sites_untouched
 #print axioms comma_value_changes_arguments
+#print axioms paren_value_changes_switch
 
 end Pory.C13c
